@@ -7,7 +7,7 @@ SPEC = {
     "suites": [
         Suite(name="chartcfg", harness="vh_chartcfg", runner="chartcfg",
               model_deps=["theories/Model/ChartCfg.vo", "theories/Model/ConfigGen.vo"],
-              quick_n=2500, thorough_n=60000,
+              quick_n=40000, thorough_n=300000,
               rule="cases: key table by reflection (1); record sets rendered by the harness's own renderer, compared byte for "
                    "byte with the model's render, parsed by the real chartconfig.Parse (40%: 0-6 records, every field "
                    "optional, repeated issue, bucket lists on one line or one per line, random blanks/comments/filler "
